@@ -542,3 +542,8 @@ Proof.
   rewrite (teardown_phase_order _ _ _ _ _ _ _ H2), K; reflexivity.
 Qed.
 
+
+(* the teardowns never clear a failure: what the setups or the body recorded is still recorded after them *)
+Theorem teardowns_never_clear_a_failure : forall env suite kept r,
+  rs_failed r = true -> rs_failed (run_teardown_funcs env suite kept r) = true.
+Proof. intros env suite kept r F; unfold run_teardown_funcs; apply failed_teardown_list; exact F. Qed.
